@@ -62,3 +62,30 @@ def drift_note(ctx, summary, label):
     u = summary.get("unexamined_after_known", 0)
     ctx.cov.setdefault("unexamined_after_known", 0)
     ctx.cov["unexamined_after_known"] += u
+
+
+def capture_tlc(ctx):
+    """Keep the TlcResult objects of every ctx.tlc call (validate_traces does not hand them out); returns the list."""
+    if getattr(ctx, "_captured", None) is not None:
+        return ctx._captured
+    ctx._captured = []
+    orig = ctx.tlc
+
+    def tlc(*a, **k):
+        r = orig(*a, **k)
+        ctx._captured.append(r)
+        return r
+    ctx.tlc = tlc
+    return ctx._captured
+
+
+def reject_reasons(results):
+    """<<"REJECT-REASON", tid, ..., why>> tuples printed by a trace specification -> {(tid, ...): why}"""
+    import re
+    out = {}
+    for r in results:
+        for p in r.prints:
+            if p.startswith('<<"REJECT-REASON"'):
+                items = [x.strip().strip('"') for x in p[2:-2].split(",")]
+                out[tuple(items[1:-1])] = items[-1]
+    return out
